@@ -57,6 +57,12 @@ func checkC08(r *Run) {
 			}
 		}
 	}
+	// start-up is idempotent: the genesis block is created exactly when the chain does not yet hold one (a restart
+	// with a chain that holds only the genesis block must not try to create it again)
+	gg := "iface:visor.Blockchainer.GetGenesisBlock($0.blockchain, $1)"
+	r.RequireAtCall("C08-R5", "visor.Visor.maybeCreateGenesisBlock", "visor.Visor.executeSignedBlock", 1,
+		req("the chain was probed for its genesis block", "ok("+gg+")"), req("and holds none", gg+"#0 == nil"))
+	r.RequireReturnAllPaths("C08-R5", "visor.Visor.maybeCreateGenesisBlock", 0, "nil", 1, req("nothing is created only when the genesis block exists", gg+"#0 != nil"))
 	// R1
 	if fn := r.fn("C08-R1", "visor.Blockchain.WalkChain"); fn != nil {
 		res := r.P.goroutinePairing(fn)
